@@ -10,6 +10,21 @@ from . import boundmc as B
 from .core import Violation
 
 
+def _timeouts(prop, results):
+    """a job that ran into the job limit (library code that does not return) is a violation"""
+    out = []
+    for r in results:
+        if isinstance(r, dict) and r.get('timeout'):
+            out.append(dict(states=0, transitions=0, sequences=0, closed=False, samples=[], cls='timeout',
+                            job=dict(family='?', d=0, n=0, cls='?', npm=0, depth=0, seeds=()),
+                            violations=[Violation(prop, 'hang:job', 'a job did not finish within {} s: '
+                                                  '{}'.format(core.JOB_LIMIT_S, str(r['args'])[:300]),
+                                                  dict(kind='timeout', args=str(r['args'])[:500]))]))
+        else:
+            out.append(r)
+    return out
+
+
 # ============================================================================================
 # C13
 # ============================================================================================
@@ -65,10 +80,13 @@ def _c13_job(j):
                 closed=ex.closed, violations=list(ex.viol.values()), samples=ex.samples)
 
 
+_c13_job.time_limited = True
+
+
 def run_C13(tier):
     timer = core.Timer()
     jobs = c13_jobs(tier)
-    res = core.pmap(_c13_job, [(j,) for j in jobs])
+    res = _timeouts('C13', core.pmap(_c13_job, [(j,) for j in jobs]))
     violations = [v for r in res for v in r['violations']]
     cov = dict(
         states=sum(r['states'] for r in res), transitions=sum(r['transitions'] for r in res),
@@ -97,6 +115,7 @@ def run_C13(tier):
 # ============================================================================================
 
 ENLARGE = (1 + 1e-6, 1.01, 1.1, 2.0)
+CALL_LIMIT_S = 120      # one sample()/log_v call of a bound; normal: milliseconds to seconds
 
 
 def zoo_specs(tier, prop):
@@ -256,7 +275,13 @@ def sound_checks(label, b, info, sp, V):
     n_draw = 300
     c = pickle.loads(pickle.dumps(b))
     if name == 'NautilusBound':
-        s = c.sample(n_draw, pool=pool)
+        try:
+            with core.time_limit(CALL_LIMIT_S):
+                s = c.sample(n_draw, pool=pool)
+        except core.Timeout:
+            V('sample-hangs', '{} ({}): sample({}) does not return within {} s'.format(
+                name, label, n_draw, CALL_LIMIT_S))
+            return
     elif name == 'NeuralBound':
         s = c.outer_bound.sample(n_draw)
         s = s[np.asarray(c.contains(s))]
@@ -364,10 +389,13 @@ def _c07_job(sp):
                 samples=samples, cls=sp['cls'])
 
 
+_c07_job.time_limited = True
+
+
 def run_C07(tier):
     timer = core.Timer()
     specs = zoo_specs(tier, 'C07')
-    res = core.pmap(_c07_job, [(sp,) for sp in specs])
+    res = _timeouts('C07', core.pmap(_c07_job, [(sp,) for sp in specs]))
     violations = [v for r in res for v in r['violations']]
     by_cls = {}
     for r in res:
@@ -432,7 +460,12 @@ def io_checks(label, b, info, sp, V):
     if name in ('NeuralBound',):
         return          # a NeuralBound has neither log_v nor sample()
     try:
-        lva, lvb = orig.log_v, back.log_v
+        with core.time_limit(CALL_LIMIT_S):
+            lva, lvb = orig.log_v, back.log_v
+    except core.Timeout:
+        V('log_v-hangs-after-read:' + name, '{} ({}): log_v of the bound or of its read-back does not '
+          'return within {} s'.format(name, label, CALL_LIMIT_S))
+        return
     except Exception as e:
         V('log_v-raises-after-read:{}:{}'.format(name, type(e).__name__), str(e))
         return
@@ -443,12 +476,17 @@ def io_checks(label, b, info, sp, V):
     # generators advanced identically if and only if the states were equal)
     for n in (1, 100, 2500):
         try:
-            if name == 'NautilusBound':
-                sa = orig.sample(n, pool=pool)
-                sb = back.sample(n, pool=pool)
-            else:
-                sa = orig.sample(n)
-                sb = back.sample(n)
+            with core.time_limit(CALL_LIMIT_S):
+                if name == 'NautilusBound':
+                    sa = orig.sample(n, pool=pool)
+                    sb = back.sample(n, pool=pool)
+                else:
+                    sa = orig.sample(n)
+                    sb = back.sample(n)
+        except core.Timeout:
+            V('sample-hangs-after-read:' + name, '{} ({}): sample({}) of the bound or of its read-back '
+              'does not return within {} s'.format(name, label, n, CALL_LIMIT_S))
+            return
         except Exception as e:
             V('sample-raises-after-read:{}:{}'.format(name, type(e).__name__),
               '{} ({}): sample({}) raised {}: {}'.format(name, label, n, type(e).__name__, e))
@@ -470,8 +508,12 @@ def io_checks(label, b, info, sp, V):
             else:
                 x.sample(1500)
         try:
-            upd = B.h5_roundtrip(o2, clone_gen(1), update_after=more)
-            full = B.h5_roundtrip(o2, clone_gen(1))
+            with core.time_limit(CALL_LIMIT_S):
+                upd = B.h5_roundtrip(o2, clone_gen(1), update_after=more)
+                full = B.h5_roundtrip(o2, clone_gen(1))
+        except core.Timeout:
+            V('update-hangs:' + name, '{} ({}): sample/update does not return'.format(name, label))
+            return
         except Exception as e:
             V('update-raises:{}:{}'.format(name, type(e).__name__), '{} ({}): update()/read raised '
               '{}: {}'.format(name, label, type(e).__name__, e))
@@ -632,6 +674,9 @@ def _c09_any(kind, *args):
     return _c09_history_job(*args)
 
 
+_c09_any.time_limited = True
+
+
 def run_C09(tier):
     timer = core.Timer()
     specs = [sp for sp in zoo_specs(tier, 'C09')
@@ -648,7 +693,8 @@ def run_C09(tier):
                  enlarge=1.1, seed=s),
             dict(cls='NautilusBound', d=2, n_networks=0, periodic=[0], family='wrapped', pool=2,
                  enlarge=1.1, seed=s)]
-    res = core.pmap(_c09_any, [('history', sp, depth) for sp in hist] + [('zoo', sp) for sp in specs])
+    res = _timeouts('C09', core.pmap(_c09_any, [('history', sp, depth) for sp in hist] +
+                                     [('zoo', sp) for sp in specs]))
     violations = [v for r in res for v in r['violations']]
     by_cls = {}
     for r in res:
